@@ -355,7 +355,13 @@ pub fn reachable_invalid(reps: usize) -> (Vec<[f64; 2]>, usize) {
 
 pub fn run(r: &mut Runner) {
     let quick = r.quick();
-    let valid = valid_alphabet(quick);
+    let mut valid = valid_alphabet(quick);
+    {
+        // organic operands: chain results, which carry low words no alphabet would construct
+        let org = crate::organic::states(1);
+        valid.extend(org.iter().step_by(if quick { 8 } else { 1 }).cloned());
+        dedup(&mut valid);
+    }
     let (inv, bfs_tr) = reachable_invalid(if quick { 2 } else { 4 });
     let nvalid = valid.len();
     let ninv = inv.len();
